@@ -240,7 +240,8 @@ REGISTRY["C20"] = {
                  (A + "Rec", "Api.Rec.lockInv_run"), (A + "Rec", "Api.Rec.C20_locked_racy_schedule_ok"),
                  (A + "RecSeq", "Api.Rec.early_write_counterexample"), (A + "RecSeq", "Api.Rec.g1_repaired_exact"), (A + "RecLockThm", "Api.Rec.visit_pinned"),
                  (A + "RecSoundThm", "Api.Rec.step_sound"), (A + "RecSoundThm", "Api.Rec.true_sound"), (A + "RecSoundThm", "Api.Rec.true_sound_concurrent"),
-                 (A + "RecSoundThm", "Api.Rec.acyclic_all_false"), (A + "RecSoundThm", "Api.Rec.onCycleB_sound"), (A + "RecSeq", "Api.Rec.wrong_false_overflows"), (A + "RecSeq", "Api.Rec.wrong_false_overflows_flag"), (A + "RecCompileThm", "Api.Rec.compileF_bound_irrelevant"), (A + "RecDepthThm", "Api.Rec.analysis_depth_bounded")],
+                 (A + "RecSoundThm", "Api.Rec.acyclic_all_false"), (A + "RecSoundThm", "Api.Rec.onCycleB_sound"), (A + "RecSeq", "Api.Rec.wrong_false_overflows"), (A + "RecSeq", "Api.Rec.wrong_false_overflows_flag"), (A + "RecCompileThm", "Api.Rec.compileF_bound_irrelevant"), (A + "RecDepthThm", "Api.Rec.analysis_depth_bounded"),
+                 (A + "RecSpecThm", "Api.Rec.onCycleB_iff"), (A + "RecSpecThm", "Api.Rec.exact_iff")],
     "partial": "the interleaving model covers the recursion analysis (the shared recursion cache): a race counterexample for the unsynchronised protocol and "
                "mutual exclusion of the locked protocol for every graph and schedule; soundness of the analysis (an answer True is a type that reaches itself: every graph, "
                "every history of calls, and two checkers under every schedule, locked or not); the converse (an answer False is a type on no cycle - the direction of row 96) is not proved: "
